@@ -132,6 +132,11 @@ def jan(v):
         x = v[1]
         if math.isnan(x): return 'math/nan'
         if math.isinf(x): return 'math/inf' if x > 0 else 'math/-inf'
+        if abs(x) >= 2.0**63 and x == math.trunc(x):
+            # exact, independent of the decimal reader: odd 53-bit integer times a power of two
+            n = int(abs(x))
+            k = (n & -n).bit_length() - 1
+            return '(* %s%d (math/pow 2 %d))' % ('-' if x < 0 else '', n >> k, k)
         return repr(x)
     if t == 's': return jbytes(v[1])
     if t == 'b': return '@' + jbytes(v[1])
@@ -226,6 +231,47 @@ class NoOpinion(Exception):
 
 
 BYTES = 'sbyk'
+MAX_ITEM = 256        # pp.c: one formatted item is at most 255 bytes (+ terminator); documented limit of the reference
+
+
+def format_single_item_length(case):
+    """for (string/format "<one directive, nothing else>" x) with a numeric x: the length of the complete rendering of the
+    item according to python, else None"""
+    import re as _re
+    f, args = case
+    if f != 'string/format' or len(args) != 2 or args[0][0] != 's' or args[1][0] not in ('i', 'd'):
+        return None
+    fmt = args[0][1]
+    m = _re.fullmatch(rb'%[-0 +]*\d{0,2}(?:\.\d{1,2})?([dfeg])', fmt)
+    if not m or (m.group(1) == b'd' and (args[1][0] != 'i' or b'.' in fmt)):
+        return None
+    try:
+        return len(fmt % (args[1][1],))
+    except (TypeError, ValueError, OverflowError):
+        return None
+
+
+def format_unexplained_nul(case, impl_body):
+    """a result of string/format / buffer/format may contain a NUL byte only if an argument did (format string, buffer,
+    string arguments, %c of a multiple of 256): returns a description if the returned value has one that no argument explains"""
+    f, args = case
+    if f not in ('string/format', 'buffer/format') or not impl_body.startswith('ok '):
+        return None
+    tok = impl_body[3:].split(' ', 1)[0]
+    if not tok or tok[0] not in 'sb':
+        return None
+    try:
+        res = bytes.fromhex(tok[1:])
+    except ValueError:
+        return None
+    if b'\0' not in res:
+        return None
+    for a in args:
+        if a[0] in BYTES and b'\0' in a[1]:
+            return None
+        if a[0] in ('i', 'd') and isint(a[1]) and int(a[1]) % 256 == 0 and any(x[0] in BYTES and b'c' in x[1] for x in args):
+            return None
+    return "result contains a NUL byte at offset %d of %d that no argument contains" % (res.index(b'\0'), len(res))
 
 
 def isint(x):
@@ -721,6 +767,26 @@ def _oracle(f, args):
                 raise NoOpinion()     # %s goes through a C string / length limit without precision
         try:
             out = fmt % tuple(vals)
+            # the same, directive by directive: an item (one rendered directive) is limited to MAX_ITEM - 1 = 255 bytes;
+            # a longer one raises "format buffer overflow" with the output produced so far left in the buffer
+            pieces, pos, vi = [], 0, 0
+            for m in _re.finditer(rb'%[-0 +#]*\d*(?:\.\d+)?(.)', fmt):
+                pieces.append(fmt[pos:m.start()])
+                pos = m.end()
+                if m.group(1) == b'%':
+                    pieces.append(b'%')
+                    continue
+                item = m.group(0) % (vals[vi],)
+                vi += 1
+                if len(item) >= MAX_ITEM:
+                    if f == 'buffer/format':
+                        part = B(bytes(buf) + b''.join(pieces))
+                        raise Err(with0(args, part))
+                    raise Err()
+                pieces.append(item)
+            pieces.append(fmt[pos:])
+            if b''.join(pieces) != out:
+                raise NoOpinion()
         except (TypeError, ValueError, OverflowError):
             raise NoOpinion()
         if f == 'buffer/format':
